@@ -11,7 +11,7 @@ RULE = ("(a) stratified cases over all 12 decorators x purge x backend family; t
         "catches the same object after exactly one evaluation; resident set, archive and info() are unchanged by the raising call; and a TWIN "
         "decorated function fed the same history minus the raising calls is indistinguishable at every later step (results, residents, archive, "
         "info, eviction victims; RR with identical random seeds). (b) safe decorators x every keymap (incl. raw non-flat) x with/without archive x "
-        "hostile arguments (list/dict/set, generator, lambda, objects whose __hash__/__repr__/__eq__/__reduce__ raise) mixed with ordinary calls: "
+        "hostile arguments (list/dict/set, generator, lambda, writable memoryview, objects whose __hash__/__repr__/__reduce__ raise TypeError, ValueError, RuntimeError or KeyError) mixed with ordinary calls: "
         "every call returns the function's value, nothing propagates, at most one evaluation. non-trivial = (a) a raising call followed by an "
         "overflow, (b) a hostile argument followed by an overflow or with an archive attached; distinct = (class, backend, keymap, outcome sequence)")
 ASSUMPTIONS = ['twin equivalence is observed through public state only (no peeking at the queue)',
